@@ -28,13 +28,16 @@ def shapes(level):
             out.append(("2d", dims, contents))
     for contents in ("const", "secret"):
         out.append(("3d", (2, 2, 2), contents))
+    # lengths beyond every small block / table size (32, 33, 40; thorough also 64, 65, 130)
+    for L in (32, 33, 40) + ((64, 65, 130) if level >= 1 else ()):
+        out.append(("1d", (L,), "secret" if L % 2 else "mixed"))
     return out
 
 
 def base_values(n):
     # deliberately NOT an affine function of the position (an under-constrained selector that only
     # satisfies linear relations would go unnoticed on contents like 3,4,5,6)
-    return [(3, 7, 4, 9, 5, 8)[i % 6] for i in range(n)]
+    return [(3, 7, 4, 9, 5, 8)[i % 6] + 11 * (i // 6) for i in range(n)]       # all distinct
 
 
 def build_array(shape):
@@ -66,7 +69,8 @@ def events(shape, level):
     ev = []
     if kind == "1d":
         L = dims[0]
-        for i in range(-1, L + 1):
+        idxs = range(-1, L + 1) if L <= 4 else sorted({-1, 0, 1, 7, 15, 16, 31, 32, 33, 63, 64, L - 2, L - 1, L} & set(range(-1, L + 1)))
+        for i in idxs:
             for ik in ("S", "K"):
                 ev.append(("read", (ik,), (i,)))
                 for vk in ("K", "S"):
@@ -282,6 +286,8 @@ def _task(t):
     if len(dims) == 3:
         inr = [e for e in inr if e[1] in (("S", "S", "S"), ("S", "K", "K"), ("K", "S", "K"))]
     sdepth = 3 if (len(inr) <= 30 or level >= 1) else 2
+    if len(dims) == 1 and dims[0] > 4:
+        sdepth = 2 if level >= 1 else 1
     search(True, sdepth, inr, False)
     st["states"] = len(seen)
     for sk, g in traces.items():
@@ -392,7 +398,9 @@ def run(ctx):
     tasks = []
     p = [REC.BN128, REC.BLS12_381, REC.CURVE25519][ctx.seed % 3]
     for shape in shapes(level):
-        if shape[0] == "1d":
+        if shape[0] == "1d" and shape[1][0] > 4:
+            depth = 2 if ctx.thorough else 1
+        elif shape[0] == "1d":
             depth = 4 if ctx.thorough else 3
         elif shape[0] == "3d":
             depth = 2
